@@ -142,8 +142,10 @@ def run_history(res, exe, rng, first, matrix_case=None):
                     op = ("tick", rng.choice([1, 2, 4, 5, 9, 10, 11, 19, 20, 21, 49, 50, 51, 120, 450]))
                 elif x < 0.80:
                     op = ("write", rng.randrange(ne), rng.choice(["same", "other-active", "new", "zero-same", "zero-other", "zero-new"]))
-                elif x < 0.82 and x >= 0.80:
+                elif x < 0.81 and x >= 0.80:
                     op = ("nohb", rng.choice(pool_nodes + [0]))
+                elif x < 0.82:
+                    op = ("hbcb", rng.choice(pool_nodes), rng.choice([5, 127, 4]))
                 elif x < 0.84:
                     op = ("pending", rng.choice(["hb", "hb", "zero", "retarget", "none", "zero-other"]))
                 elif x < 0.88:
@@ -175,6 +177,32 @@ def run_history(res, exe, rng, first, matrix_case=None):
                     key = "inv"
                 if err:
                     fail(key, err); return
+            elif op[0] == "hbcb":
+                # API calls made from inside a callback: the state change notification makes the application restart the monitoring of
+                # that node with another time (deactivate + activate the same entry).  The entry is then a fresh one: no previous
+                # state, so the next heartbeat is notified again, whatever state it carries
+                _, node, st = op
+                x = m.find(node)
+                if x is None or DEC.get(st, 0) == x.last:
+                    continue
+                k = m.e.index(x)
+                t2 = rng.choice([20, 50, 100])
+                script.append("hb node %d state %d @%d, callback re-writes 1016h:%d (time %d)" % (node, st, now, k + 1, t2))
+                sim.cmd("hbchangecb %d %x %x" % (k + 1, node << 16, (node << 16) | t2))
+                r = m.heartbeat(node, st, now)
+                m.write(k, node, 0); m.write(k, node, t2)
+                evs = sim.rx(0x700 + node, bytes([st]))
+                err = common(evs)
+                ch = [(int(c[1]), int(c[2])) for c in S.cbs(evs, "hbchange")]
+                rw = [c[1:] for c in S.cbs(evs, "hbrewrite")]
+                if err:
+                    fail("inv", err); return
+                if ch != [r[1]] or rw != [[str(k + 1), "0", "0"]]:
+                    fail("change/in-callback", "notifications %r (reference %r), re-configuration inside the callback returned %r" % (ch, [r[1]], rw)); return
+                got_last = int(sim.ret("hblast %d" % node)[0])
+                if got_last != 0:
+                    fail("change/in-callback-state", "entry 1016h:%d re-written inside the state change callback: last state of node %d reads %d, reference 0 (no heartbeat since)" % (k + 1, node, got_last)); return
+                res.counters["rewrites_inside_change_callback"] += 1
             elif op[0] == "nohb":
                 # frames that are no heartbeat: 700h + id without the state byte (DLC 0), and 700h itself (there is no node 0) -
                 # they start or restart no monitoring and notify no state
